@@ -9,7 +9,7 @@ import sys
 
 VERIF = os.path.dirname(os.path.dirname(os.path.abspath(__file__)))
 REPO = os.environ.get('SFV_REPO', '/repo')
-EXTRA = {'58f3297': 'C17', 'ad4f5b0': 'C03', 'caf415b': 'C05', '1a52c9e': 'C08', '00cd6df': 'C08', '8e293f6': 'C01', '335e610': 'C01', 'db5a333': 'C01', '083a64e': 'C04', '0335ff8': 'C02', '8dba1fb': 'C02', '9eb4b8c': 'C04', '4a7f60b': 'C02', '51a0a39': 'C02'}
+EXTRA = {'831d509': 'C14', '0701f80': 'C14', '58f3297': 'C17', 'ad4f5b0': 'C03', 'caf415b': 'C05', '1a52c9e': 'C08', '00cd6df': 'C08', '8e293f6': 'C01', '335e610': 'C01', 'db5a333': 'C01', '083a64e': 'C04', '0335ff8': 'C02', '8dba1fb': 'C02', '9eb4b8c': 'C04', '4a7f60b': 'C02', '51a0a39': 'C02'}
 
 
 def main():
